@@ -39,6 +39,7 @@ type Config struct {
 	NoIncremental bool
 	NoModelCache bool
 	SkipFuncs   map[string]bool // functions treated as no-ops (default results)
+	Models      map[string]bool // opt-in engine models of library functions (see optIntrinsics)
 	SampleDone  int // number of completed paths whose model is kept for native validation
 }
 
